@@ -1788,6 +1788,11 @@ class _FoldConst(ast.NodeTransformer):
     dict display (the other entries pure): what a table written into the code evaluates to"""
     def visit_Compare(self, node):
         self.generic_visit(node)
+        if len(node.ops) == 1 and isinstance(node.ops[0], (ast.Is, ast.IsNot)) and isinstance(node.comparators[0], ast.Constant) and node.comparators[0].value is None:
+            if isinstance(node.left, ast.Constant) and node.left.value is None:
+                return ast.copy_location(ast.Constant(isinstance(node.ops[0], ast.Is)), node)
+            if norm._never_none(node.left, {}) and norm.is_pure(node.left, _PURE_EXT):
+                return ast.copy_location(ast.Constant(isinstance(node.ops[0], ast.IsNot)), node)
         if len(node.ops) == 1 and isinstance(node.left, ast.Constant) and isinstance(node.comparators[0], ast.Constant) \
                 and type(node.left.value) is type(node.comparators[0].value) and isinstance(node.left.value, (str, int, bytes)) and not isinstance(node.left.value, bool):
             a, b, op = node.left.value, node.comparators[0].value, node.ops[0]
@@ -1801,6 +1806,26 @@ class _FoldConst(ast.NodeTransformer):
         self.generic_visit(node)
         if isinstance(node.test, ast.Constant) and isinstance(node.test.value, bool):
             return node.body if node.test.value else node.orelse
+        return node
+
+    def visit_BoolOp(self, node):
+        self.generic_visit(node)
+        vals = []
+        for v in node.values:
+            if isinstance(v, ast.Constant) and isinstance(v.value, bool):
+                if isinstance(node.op, ast.And) and v.value is False or isinstance(node.op, ast.Or) and v.value is True:
+                    # (operands before it are pure tests here only if they are: keep them when they may do something)
+                    if all(norm.is_pure(x, _PURE_EXT) for x in vals):
+                        return ast.copy_location(ast.Constant(v.value), node)
+                    vals.append(v)
+                    break
+                continue            # neutral element
+            vals.append(v)
+        if not vals:
+            return ast.copy_location(ast.Constant(isinstance(node.op, ast.And)), node)
+        if len(vals) == 1:
+            return vals[0]
+        node.values = vals
         return node
 
     def _getattr(self, node):
@@ -1864,6 +1889,24 @@ class _FoldConst(ast.NodeTransformer):
             if hits:
                 return hits[-1]
         return node
+
+
+def fold_constant_ifs(stmts):
+    """if True: A else: B  ->  A      (a test folded to a literal: the branch not taken is no code at all)"""
+    out = []
+    for s_ in stmts:
+        for fld in ("body", "orelse", "finalbody"):
+            bb = getattr(s_, fld, None)
+            if isinstance(bb, list) and bb and isinstance(bb[0], ast.stmt) and not isinstance(s_, (ast.FunctionDef, ast.AsyncFunctionDef, ast.ClassDef)):
+                setattr(s_, fld, fold_constant_ifs(bb) or ([ast.Pass()] if fld == "body" else []))
+        if isinstance(s_, ast.Try):
+            for h in s_.handlers:
+                h.body = fold_constant_ifs(h.body) or [ast.Pass()]
+        if isinstance(s_, ast.If) and isinstance(s_.test, ast.Constant) and isinstance(s_.test.value, bool):
+            out += [x for x in (s_.body if s_.test.value else s_.orelse) if not isinstance(x, ast.Pass)]
+            continue
+        out.append(s_)
+    return out
 
 
 def expr_norm(stmts):
@@ -2760,6 +2803,9 @@ class Canon:
             here = sum(1 for b_ in bb[i + 1:] for n in ast.walk(b_) if isinstance(n, ast.Name) and n.id == x and isinstance(n.ctx, ast.Load))
             return stores == 1 and loads == here
         for s_ in stmts:
+            if isinstance(s_, (ast.For, ast.While, ast.With)) and s_.body:
+                # (a loop / with body is a statement list of its own: a record bound in it lives one round)
+                s_.body = self._project_helper_objects(s_.body, module, whole)
             if isinstance(s_, ast.If):
                 for fld in ("body", "orelse"):
                     bb = getattr(s_, fld)
@@ -4260,13 +4306,24 @@ class Canon:
                     t, neg = s2.test, False
                     while isinstance(t, ast.UnaryOp) and isinstance(t.op, ast.Not):
                         t, neg = t.operand, not neg
+                    none_test = None
+                    if isinstance(t, ast.Compare) and len(t.ops) == 1 and isinstance(t.ops[0], (ast.Is, ast.IsNot)) and isinstance(t.comparators[0], ast.Constant) \
+                            and t.comparators[0].value is None and isinstance(t.left, ast.Attribute):
+                        # `v.f is not None`: true where the field was given something that is never None, false where it was given None
+                        none_test = isinstance(t.ops[0], ast.IsNot)
+                        t = t.left
                     if isinstance(t, ast.Attribute) and isinstance(t.value, ast.Name):
                         v, f_ = t.value.id, t.attr
                         lv = leaves([s1], v, {})
                         decided = []
                         for blk, facts in (lv or []):
                             vals = self._record_fields(blk[-1].value, module, cls)
-                            tv = truth(vals[f_], facts) if vals is not None and f_ in vals else None
+                            if none_test is None:
+                                tv = truth(vals[f_], facts) if vals is not None and f_ in vals else None
+                            else:
+                                fv = vals.get(f_) if vals is not None else None
+                                some = None if fv is None else (False if isinstance(fv, ast.Constant) and fv.value is None else (True if norm._never_none(fv, {}) else None))
+                                tv = None if some is None else (some == none_test)
                             decided.append(tv)
                         if lv and all(d is not None for d in decided) and len(set(decided)) == 2:
                             inside = sum(1 for n in ast.walk(s2) if isinstance(n, ast.Name) and n.id == v and isinstance(n.ctx, ast.Load))
@@ -4620,9 +4677,23 @@ class Canon:
                 b4 = self.fuse_eager_loops(b4, module, cls, fn)
                 b = _drop_dead_temps(norm.forward_subst(subst_single_use(b4), pure_calls=_PURE_EXT))
         b = self.fold_own_bodies(b, module, cls, fn)
-        b = polarity(expr_norm(b))          # (expression idioms may have produced `not all(..)` tests)
+        b = polarity(fold_constant_ifs(expr_norm(b)))          # (expression idioms may have produced `not all(..)` tests)
         for s in b:
             ast.fix_missing_locations(s)
+        # helpers the tables do not know that only became visible at the end (a loop fused late, a table unrolled late): once more
+        if not getattr(self, "_second_pass", False) and fn.name != "_module_level_":
+            left = [n for s_ in b for n in ast.walk(s_) if isinstance(n, ast.Call)]
+            if any(look(n) is not None for n in left):
+                f2 = copy.copy(fn)
+                f2.body = [copy.deepcopy(x) for x in b]
+                f2.decorator_list = []
+                self._keepalive.append(f2)
+                self._second_pass = True
+                try:
+                    b2 = self.body(f2, module, cls, inline=inline, keep=keep, subst=subst, accessors=accessors, supers=supers)
+                finally:
+                    self._second_pass = False
+                b = b2
         if fn.name != "_module_level_":
             self.cache[key] = b
             self._keepalive.append(fn)      # ids are cache keys: the function objects must outlive the cache
